@@ -323,6 +323,7 @@ impl<'a> Gen<'a> {
                 9 => { let e = self.enc(); let sd = self.sd(); return Ty::Str(Some(Lt::Named("a".into())), e, sd) }
                 10 => { let p = self.prim(); let sd = self.sd(); return Ty::PSlice(Some((Lt::Named("a".into()), false)), p, sd) }
                 11 if in_res_opt && !self.names.zsts.is_empty() => return Ty::Named(self.rng.pick(&self.names.zsts.clone()).clone()),
+                11 if in_res_opt && self.prof.option => { let sd = self.sd(); return Ty::Opt(Box::new(Ty::Prim(self.prim())), sd) }
                 _ => continue,
             }
         }
@@ -476,6 +477,33 @@ impl<'a> Gen<'a> {
 
 /// single-fault mutants: each breaks one documented rule at one position; returns (rule tag, mutant)
 pub fn mutants(m: &Module, rng: &mut Rng) -> Vec<(String, Module)> {
+    mutants_ctx(m, rng, Profile { option: true, callbacks: true, static_slices: true, unsafe_refs: false }).into_iter().map(|(a, b, _)| (a, b)).collect()
+}
+
+/// like `mutants`, with the context (`Type` or `Type::method`) the resulting error must carry
+pub fn mutants_ctx(m: &Module, rng: &mut Rng, prof: Profile) -> Vec<(String, Module, String)> {
+    let base = mutants_inner(m, rng, prof);
+    base.into_iter()
+        .map(|(tag, mm)| {
+            // the faulty position is the one declaration that differs from the original
+            let mut ctx = String::new();
+            for (a, b) in m.types.iter().zip(mm.types.iter()) {
+                if a.sexp() == b.sexp() {
+                    continue;
+                }
+                ctx = b.name.clone();
+                for (ma, mb) in a.methods.iter().zip(b.methods.iter()) {
+                    if ma.sexp() != mb.sexp() {
+                        ctx = format!("{}::{}", b.name, mb.name);
+                    }
+                }
+            }
+            (tag, mm, ctx)
+        })
+        .collect()
+}
+
+fn mutants_inner(m: &Module, rng: &mut Rng, prof: Profile) -> Vec<(String, Module)> {
     let mut out = vec![];
     let op = m.types.iter().find(|t| matches!(t.def, Def::Opaque)).map(|t| t.name.clone()).unwrap();
     let st = m.types.iter().find(|t| matches!(&t.def, Def::Struct { out: false, fields } if !fields.is_empty())).map(|t| t.name.clone());
@@ -600,6 +628,52 @@ pub fn mutants(m: &Module, rng: &mut Rng) -> Vec<(String, Module)> {
             me.ret = Some(Ty::Str(Some(Lt::Anon), Enc::Utf8, Sd::Std));
             out.push(("elided-return-single-input".into(), mm));
         }
+    }
+    // elided lifetime in one arm of a Result whose other arm carries a value
+    {
+        let opaque_sites: Vec<(usize, usize)> = sites.iter().cloned().filter(|(ti, _)| matches!(m.types[*ti].def, Def::Opaque)).collect();
+        if !opaque_sites.is_empty() {
+            for (tag, ok, err) in [
+                ("elided-in-err-arm", Ty::Prim(Prim::U8), Ty::Ref(Lt::Anon, false, Box::new(opq(&op)))),
+                ("elided-in-ok-arm", Ty::Ref(Lt::Anon, false, Box::new(opq(&op))), Ty::Prim(Prim::U8)),
+            ] {
+                let (ti, mi) = *rng.pick(&opaque_sites);
+                let mut mm = m.clone();
+                let owner = mm.types[ti].name.clone();
+                let me = &mut mm.types[ti].methods[mi];
+                me.self_param = Some(SelfParam { ty: owner, by_ref: true, mutable: false, lt: Lt::Anon });
+                me.params = vec![];
+                me.ret = Some(Ty::Res(Box::new(ok), Box::new(err), Sd::Std));
+                out.push((tag.to_string(), mm));
+            }
+        }
+    }
+    // a backend without `option` support must reject Option payloads wherever they appear
+    if !prof.option {
+        let (ti, mi) = *rng.pick(&sites);
+        let mut mm = m.clone();
+        let me = &mut mm.types[ti].methods[mi];
+        let pos = if matches!(me.params.last(), Some((_, Ty::Write))) { me.params.len() - 1 } else { me.params.len() };
+        me.params.insert(pos, ("bad".into(), Ty::Opt(Box::new(Ty::Prim(Prim::U8)), Sd::Dip)));
+        out.push(("option-unsupported-param".into(), mm));
+        for (tag, ret) in [
+            ("option-unsupported-ok-arm", Ty::Res(Box::new(Ty::Opt(Box::new(Ty::Prim(Prim::U8)), Sd::Std)), Box::new(Ty::Unit), Sd::Std)),
+            ("option-unsupported-err-arm", Ty::Res(Box::new(Ty::Unit), Box::new(Ty::Opt(Box::new(Ty::Prim(Prim::I32)), Sd::Dip)), Sd::Std)),
+        ] {
+            let (ti, mi) = *rng.pick(&sites);
+            let mut mm = m.clone();
+            mm.types[ti].methods[mi].ret = Some(ret);
+            if matches!(mm.types[ti].methods[mi].params.last(), Some((_, Ty::Write))) {
+                mm.types[ti].methods[mi].params.pop();
+            }
+            out.push((tag.to_string(), mm));
+        }
+        let (ti, mi) = *rng.pick(&sites);
+        let mut mm = m.clone();
+        let me = &mut mm.types[ti].methods[mi];
+        let pos = if matches!(me.params.last(), Some((_, Ty::Write))) { me.params.len() - 1 } else { me.params.len() };
+        me.params.insert(pos, ("bad".into(), Ty::Opt(Box::new(Ty::Str(Some(Lt::Anon), Enc::Utf8, Sd::Std)), Sd::Std)));
+        out.push(("option-unsupported-str-param".into(), mm));
     }
     // self rules
     for (ti, t) in m.types.iter().enumerate() {
